@@ -7,6 +7,7 @@ import (
 	"bytes"
 	"fmt"
 	"os"
+	"strings"
 	"sync"
 	"testing"
 
@@ -97,7 +98,7 @@ func runChain(t *rapid.T, rec *ev.Rec) {
 	g := &nodesim.Group{Sim: sim, Ring: ring, Nodes: []*nodesim.Node{a, b}}
 	cs.Desc("stakes=%v blockSize=%d", w.Stakes, blockSize)
 	fatalf := func(format string, args ...any) {
-		t.Fatalf("%s\nchain: %s", fmt.Sprintf(format, args...), cs.Descriptor())
+		t.Fatalf("%s", clipLines(fmt.Sprintf("%s\nchain: %s", fmt.Sprintf(format, args...), cs.Descriptor()), 16000))
 	}
 	k := rapid.IntRange(2, 5).Draw(t, "heights")
 	var certified []*lib.QuorumCertificate
@@ -181,7 +182,12 @@ func runChain(t *rapid.T, rec *ev.Rec) {
 		}
 		proposer := rapid.IntRange(0, 1).Draw(t, "proposer")
 		ld, other := g.Nodes[proposer], g.Nodes[1-proposer]
-		vs, _ := ld.Committee(ld.C.RootChainHeight())
+		vs, ce := ld.Committee(ld.C.RootChainHeight())
+		if ce != nil || vs.ValidatorSet == nil || len(vs.ValidatorSet.ValidatorSet) == 0 {
+			cs.Class("degenerate:no-committee-left(chain ends)") // every validator paused/unstaked: no chain to check
+			cs.Done(false)
+			return
+		}
 		s1, s2 := quorum(t, vs), quorum(t, vs)
 		res, err := g.Certify(proposer, s1, uint64(rapid.IntRange(0, 1).Draw(t, "round")))
 		if err != nil {
@@ -457,4 +463,15 @@ func longPrefix(gen *fsm.GenesisState, ring nodesim.KeyRing) (*vfs.MemFS, []*lib
 		longCache.fs, longCache.err = a.CloneFS()
 	})
 	return longCache.fs, longCache.certs, longCache.err
+}
+
+// clipLines shortens every line of a failure message (rapid fail files must stay below 64 KiB per line to be loadable)
+func clipLines(s string, max int) string {
+	lines := strings.Split(s, "\n")
+	for i, l := range lines {
+		if len(l) > max {
+			lines[i] = l[:max] + fmt.Sprintf("...(+%d bytes)", len(l)-max)
+		}
+	}
+	return strings.Join(lines, "\n")
 }
